@@ -117,16 +117,16 @@ def etree_iter_strings(elem: Union[DocumentProtocol, ElementProtocol],
 
         for e in elem.iter():
             if callable(e.tag):
-                continue
-            if e.text is not None:
+                pass  # a comment or a processing instruction: only the tail is text
+            elif e.text is not None:
                 yield e.text.strip() if e is root else e.text
             if e.tail is not None and e is not root:
                 yield e.tail.strip() if e in root else e.tail
     else:
         for e in elem.iter():
             if callable(e.tag):
-                continue
-            if e.text is not None:
+                pass  # a comment or a processing instruction: only the tail is text
+            elif e.text is not None:
                 yield e.text
             if e.tail is not None and e is not elem:
                 yield e.tail
